@@ -123,8 +123,10 @@ def cases():
             names = []
             body = _render(root, names)
             attrs = ''.join(f'<xs:attribute name="a{i}" type="xs:string"/>' for i in range(nattr))
-            xml = HEAD + f'<xs:element name="T"><xs:complexType>{body}{attrs}</xs:complexType></xs:element></xs:schema>'
-            out.append((f'e{ri}x{nattr}', xml, ','.join(list(names) + [f'@a{i}' for i in range(nattr)])))
+            for di, doc in enumerate(('', DOC)):
+                # XSD puts the documentation of an element before its inline type
+                xml = HEAD + f'<xs:element name="T">{doc}<xs:complexType>{body}{attrs}</xs:complexType></xs:element></xs:schema>'
+                out.append((f'e{ri}x{nattr}d{di}', xml, ','.join(list(names) + [f'@a{i}' for i in range(nattr)])))
     # occurrence family: a member under 1..3 nested groups, every combination of group kind and occurrence attributes on each level and on the member;
     # expected wrapper from the property: Vec if the member or an enclosing group may repeat, else Option if the member or an enclosing group is optional
     # or the member is in a choice, else bare
